@@ -25,9 +25,32 @@ type rtSession struct {
 	cancel   func()
 }
 
-func newRtSession(r *rng) (*rtSession, error) {
+func newRtSession(r *rng) (*rtSession, error) { return newRtSessionOver(r, false) }
+
+// newRtSessionOver: overGRPC puts a real gRPC client / server pair (relay_grpc_test.go) between the library and
+// the relay's mailboxes
+func newRtSessionOver(r *rng, overGRPC bool) (*rtSession, error) {
 	s := &rtSession{relay: newFakeRelay()}
 	s.ctx, s.cancel = context.WithCancel(context.Background())
+	if overGRPC {
+		gc, stop, err := s.relay.serveGRPC()
+		if err != nil {
+			return nil, err
+		}
+		cancel := s.cancel
+		s.cancel = func() { cancel(); stop() }
+		entropy := r.bytes(14)
+		s.cdC = mailbox.NewConnData(keyECDH(privFromRng(r)), nil, entropy, nil, nil, nil)
+		s.cdS = mailbox.NewConnData(keyECDH(privFromRng(r)), nil, entropy, []byte("macaroon"), nil, nil)
+		var e1, e2 error
+		s.srv, e1 = mailbox.VerifNewServer("relay", s.cdS, gc, func(mailbox.ServerStatus) {})
+		s.cli, e2 = mailbox.VerifNewClient(s.ctx, "relay", s.cdC, gc)
+		if e1 != nil || e2 != nil {
+			s.cancel()
+			return nil, fmt.Errorf("%v %v", e1, e2)
+		}
+		return s, nil
+	}
 	entropy := r.bytes(14)
 	s.cdC = mailbox.NewConnData(keyECDH(privFromRng(r)), nil, entropy, nil, nil, nil)
 	s.cdS = mailbox.NewConnData(keyECDH(privFromRng(r)), nil, entropy, []byte("macaroon"), nil, nil)
@@ -220,6 +243,57 @@ func rtSessionCases(q *oracle, r *rng) {
 		_ = n2c.Close()
 		_ = n2s.Close()
 		_ = s.srv.Close()
+		return "", ""
+	})
+
+	// a session over the gRPC face of the relay (real client streams; one writer and one reader per mailbox, as the
+	// deployed relay): connect, transfer both ways, one side closes, the other is told at once, and the next
+	// connection comes about and works, several times over
+	run("reconnects-over-grpc", func(rr *rng) (string, string) {
+		s, err := newRtSessionOver(rr, true)
+		if err != nil {
+			return "c11:setup", err.Error()
+		}
+		defer s.cancel()
+		defer func() { _ = s.srv.Close() }()
+		for round := 0; round < 4; round++ {
+			t0 := time.Now()
+			c, sv, err := s.connect(40 * time.Second)
+			if err != nil {
+				s.relay.mu.Lock()
+				occ := s.relay.grpcOccupied
+				s.relay.mu.Unlock()
+				return "c11:no-fresh-connection:over-grpc", fmt.Sprintf("round %d: %v (streams refused by the relay because the mailbox still had a writer / reader: %d)", round, err, occ)
+			}
+			took := time.Since(t0)
+			if err := transfer(c, sv, []byte(fmt.Sprintf("round %d up", round)), 10*time.Second); err != nil {
+				return "c11:fresh-connection-does-not-work:over-grpc", fmt.Sprintf("round %d client->server: %v", round, err)
+			}
+			if err := transfer(sv, c, []byte(fmt.Sprintf("round %d down", round)), 10*time.Second); err != nil {
+				return "c11:fresh-connection-does-not-work:over-grpc", fmt.Sprintf("round %d server->client: %v", round, err)
+			}
+			if round > 0 && took > 20*time.Second {
+				return "c11:no-fresh-connection:over-grpc", fmt.Sprintf("round %d: the connection after a Close took %v to come about", round, took)
+			}
+			a, b, who := c, sv, "client"
+			if round%2 == 1 {
+				a, b, who = sv, c, "server"
+			}
+			rd := make(chan error, 1)
+			go func() { _, e := b.Read(make([]byte, 8)); rd <- e }()
+			time.Sleep(100 * time.Millisecond)
+			t1 := time.Now()
+			_ = a.Close()
+			select {
+			case e := <-rd:
+				if e == nil {
+					return "c12:mailbox-peer-not-told:closer=" + who + "-over-grpc", "the peer's Read returned data after Close"
+				}
+			case <-time.After(4 * time.Second):
+				return "c12:mailbox-peer-not-told:closer=" + who + "-over-grpc", fmt.Sprintf("round %d: %s closed over a working gRPC relay; the peer's blocked Read is still blocked after %v", round, who, time.Since(t1))
+			}
+			_ = b.Close()
+		}
 		return "", ""
 	})
 
